@@ -205,9 +205,8 @@ Theorem ids_canonical sup rnd js scid ps v ps' ov wire :
   dial sup rnd js scid (snd (tp_ids sup ps)) = dial sup rnd js scid ps.
 Proof.
   intros Hw Hs Hd Hp. cbn [tp_ids fst snd] in *.
-  assert (Hsame : dial sup rnd js scid (suppress sup ps) = dial sup rnd js scid ps).
-  { unfold dial, dial_list. rewrite suppress_idem. reflexivity. }
-  rewrite Hsame in Hd.
+  assert (Hsame : dial sup rnd js scid ps = dial sup rnd js scid ps) by reflexivity.
+  clear Hsame. assert (Hsame : dial sup rnd js scid ps = dial sup rnd js scid ps) by reflexivity.
   destruct (wire_is_spec _ _ _ _ _ _ _ _ Hw Hs Hd) as [Ho [Hparse [Hperm [_ [Hids _]]]]].
   subst ov. rewrite Hparse in Hp. inversion Hp; subst wire; clear Hp.
   assert (Hpm : Permutation (map (fun p => canon (pid p)) (suppress sup ps))
